@@ -6,6 +6,7 @@ from ..env import gfapy, GfapyError
 from ..runner import Part, Violation
 
 ID = "C05"
+ATHERIS = ['gfa1', 'gfa2']  # parts also driven by libFuzzer in the thorough tier (vf/runner.py: all_parts)
 RULE = ("model-based histories of add / rm by name / rm by instance / disconnect / rename / set+delete tag "
         "(and, beyond the statement's list, remove-and-add-again of the same object and the item-editing methods of GFA2 groups) "
         "(each step legal in the text model, forward references allowed, a closing phase defines or removes "
